@@ -225,7 +225,7 @@ def boundsOK : Bounds → Bool
 
 /-- Two boxes share no point on their common coordinates. -/
 def disjointB : Bounds → Bounds → Bool
-  | (l1, h1) :: a, (l2, h2) :: b => decide (h1 < l2) || decide (h2 < l1) || disjointB a b
+  | (l1, h1) :: a, (l2, h2) :: b => Nat.blt h1 l2 || Nat.blt h2 l1 || disjointB a b
   | _, _ => false
 
 def Entry.eqB (a b : Entry) : Bool :=
@@ -242,8 +242,13 @@ def shapeB (src : Entry → Bounds) : Nat → List (List Entry) → Bool
   | _, [] => true
   | k, l :: ls => l.all (fun e => decide ((src e).length = k + 1) && entryOK e) && shapeB src (k + 1) ls
 
+/-- Any two entries of the list are equal or have disjoint `src` boxes (triangular check). -/
+def pairwiseB (src : Entry → Bounds) : List Entry → Bool
+  | [] => true
+  | a :: as => as.all (fun b => disjointB (src a) (src b) || a.eqB b) && pairwiseB src as
+
 def sideDisjointB (src : Entry → Bounds) (tbl : List (List Entry)) : Bool :=
-  tbl.flatten.all fun a => tbl.flatten.all fun b => a.eqB b || disjointB (src a) (src b)
+  pairwiseB src tbl.flatten
 
 def subsetB (a b : List (List Entry)) : Bool :=
   a.flatten.all fun e => b.flatten.any fun e' => e.eqB e'
